@@ -8,9 +8,15 @@
    A canonicaliser's outcome is  Ok v | ValueError | OtherError <class>;
    "total" means the third outcome is impossible.  Proofs: Proofs/Canon.v.
 
-   The accept/reject decision functions of Model/Verify.v and the cross product
-   of constructor arguments are tied to the implementation by the
-   correspondence check (Harness/H_C16.v, harness/props/c16.py), not proved. *)
+   The accept/reject decision functions of Model/Verify.v (hand-written mirrors
+   of the five verify_hyperparameters functions and the layer __init__ / build
+   checks) are tied to the implementation by the correspondence check
+   (Harness/H_C16.v, harness/props/c16.py).  The second half of this file
+   proves ABOUT them (Proofs/VerifyFacts.v): every invalid class named by the
+   property is rejected for all configurations, and an accepted configuration
+   satisfies the "valid configuration" premises of the other properties'
+   theorems (C01/C08/C10/C12 cfg_valid, C07/C14 cfg_ok, C04 pwl_valid, C06
+   lin_valid / pairs_in_range). *)
 From TFL Require Import Model.PyVal Gen.GenCanon Proofs.Canon.
 Open Scope string_scope.
 
@@ -234,3 +240,520 @@ Theorem C16_count_non_zeros : forall os : list (option (list Z)),
   Ok (VInt (fold_right (fun o s => match o with None => 0 | Some l => count_nz l end + s) 0 os))%Z.
 Proof. exact gen_count_ints. Qed.
 Print Assumptions C16_count_non_zeros.
+
+(* ========================================================================== *)
+(* The accept/reject decisions of Model/Verify.v                               *)
+(* ========================================================================== *)
+From TFL Require Proofs.LatticeSpec Proofs.KFL Proofs.PWLProject Proofs.LinearProject
+  Proofs.PartialOrder Proofs.TopoSort.
+From TFL Require Import Model.Verify Proofs.VerifyFacts.
+Open Scope Z_scope.
+
+(* Vocabulary.  Indices are Python ints (Z); znth l i = l[i];
+   zlen l = len(l); mono_at (l_monos c) d = Some 1 reads "monotonicities is
+   given and monotonicities[d] == 1"; trusts are canonical (main, conditional,
+   direction) triples, l_edge c ++ l_trap c is the list all_trusts of
+   verify_hyperparameters (Edgeworth first, then trapezoid); a dominance /
+   joint constraint is the list of ints the user gave.
+   accepts_lattice_constraints = every check LatticeConstraints makes,
+   accepts_lattice = all of lattice_lib.verify_hyperparameters,
+   accepts_lattice_layer = Lattice(...) + build with the default initialiser. *)
+
+(* ---- Lattice: one rejection theorem per invalid class ---------------------- *)
+Theorem C16_reject_lattice_size_below_2 : forall c s,
+  In s (l_sizes c) -> s < 2 -> accepts_lattice_constraints c = false.
+Proof. exact reject_lattice_size_below_2. Qed.
+Print Assumptions C16_reject_lattice_size_below_2.
+
+Theorem C16_reject_lattice_monotonicities_length : forall c ms,
+  l_monos c = Some ms -> zlen ms <> zlen (l_sizes c) -> accepts_lattice_constraints c = false.
+Proof. exact reject_lattice_monotonicities_length. Qed.
+Print Assumptions C16_reject_lattice_monotonicities_length.
+
+Theorem C16_reject_lattice_unimodalities_length : forall c us,
+  l_unimods c = Some us -> zlen us <> zlen (l_sizes c) -> accepts_lattice_constraints c = false.
+Proof. exact reject_lattice_unimodalities_length. Qed.
+Print Assumptions C16_reject_lattice_unimodalities_length.
+
+(* a unimodal dimension needs lattice size >= 3 *)
+Theorem C16_reject_lattice_unimodal_size_below_3 : forall c us i,
+  l_unimods c = Some us -> (i < List.length us)%nat -> (i < List.length (l_sizes c))%nat ->
+  nth i us 0 <> 0 -> nth i (l_sizes c) 0 < 3 -> accepts_lattice_constraints c = false.
+Proof. exact reject_lattice_unimodal_size_below_3. Qed.
+Print Assumptions C16_reject_lattice_unimodal_size_below_3.
+
+(* a dimension both monotone and unimodal *)
+Theorem C16_reject_lattice_monotone_and_unimodal : forall c ms us i,
+  l_monos c = Some ms -> l_unimods c = Some us -> (i < List.length ms)%nat -> (i < List.length us)%nat ->
+  nth i ms 0 <> 0 -> nth i us 0 <> 0 -> accepts_lattice_constraints c = false.
+Proof. exact reject_lattice_monotone_and_unimodal. Qed.
+Print Assumptions C16_reject_lattice_monotone_and_unimodal.
+
+(* a trust (Edgeworth or trapezoid) whose main feature is not monotone:
+   monotonicities not given, or monotonicities[main] <> 1 *)
+Theorem C16_reject_lattice_trust_main_not_monotone : forall c main cond dir,
+  In (main, cond, dir) (l_edge c ++ l_trap c) -> mono_at (l_monos c) main <> Some 1 ->
+  accepts_lattice_constraints c = false.
+Proof. exact reject_lattice_trust_main_not_monotone. Qed.
+Print Assumptions C16_reject_lattice_trust_main_not_monotone.
+
+Theorem C16_reject_lattice_trust_out_of_range : forall c main cond dir,
+  In (main, cond, dir) (l_edge c ++ l_trap c) ->
+  main < 0 \/ zlen (l_sizes c) <= main \/ cond < 0 \/ zlen (l_sizes c) <= cond ->
+  accepts_lattice_constraints c = false.
+Proof. exact reject_lattice_trust_out_of_range. Qed.
+Print Assumptions C16_reject_lattice_trust_out_of_range.
+
+(* a feature that is the main feature of one trust and the conditional feature
+   of another (both Edgeworth, both trapezoid, or one of each) *)
+Theorem C16_reject_lattice_trust_main_and_conditional : forall c f cond dir main' dir',
+  In (f, cond, dir) (l_edge c ++ l_trap c) -> In (main', f, dir') (l_edge c ++ l_trap c) ->
+  accepts_lattice_constraints c = false.
+Proof. exact reject_lattice_trust_main_and_conditional. Qed.
+Print Assumptions C16_reject_lattice_trust_main_and_conditional.
+
+Theorem C16_reject_lattice_trust_across_kinds : forall c f cond dir main' dir',
+  (In (f, cond, dir) (l_edge c) /\ In (main', f, dir') (l_trap c)) \/
+  (In (f, cond, dir) (l_trap c) /\ In (main', f, dir') (l_edge c)) ->
+  accepts_lattice_constraints c = false.
+Proof. exact reject_lattice_trust_across_kinds. Qed.
+Print Assumptions C16_reject_lattice_trust_across_kinds.
+
+(* the same (main, conditional) pair with two directions *)
+Theorem C16_reject_lattice_trust_two_directions : forall c main cond d d',
+  In (main, cond, d) (l_edge c ++ l_trap c) -> In (main, cond, d') (l_edge c ++ l_trap c) -> d <> d' ->
+  accepts_lattice_constraints c = false.
+Proof. exact reject_lattice_trust_two_directions. Qed.
+Print Assumptions C16_reject_lattice_trust_two_directions.
+
+(* monotonic or range dominance between features that are not both monotone *)
+Theorem C16_reject_lattice_dominance_not_monotone : forall c cs a b,
+  l_mdom c = Some cs \/ l_rdom c = Some cs -> In [a; b] cs ->
+  mono_at (l_monos c) a <> Some 1 \/ mono_at (l_monos c) b <> Some 1 ->
+  accepts_lattice_constraints c = false.
+Proof. exact reject_lattice_dominance_not_monotone. Qed.
+Print Assumptions C16_reject_lattice_dominance_not_monotone.
+
+(* dominance (a, b) together with (b, a) *)
+Theorem C16_reject_lattice_dominance_both_ways : forall c cs a b,
+  l_mdom c = Some cs \/ l_rdom c = Some cs -> In [a; b] cs -> In [b; a] cs ->
+  accepts_lattice_constraints c = false.
+Proof. exact reject_lattice_dominance_both_ways. Qed.
+Print Assumptions C16_reject_lattice_dominance_both_ways.
+
+Theorem C16_reject_lattice_dominance_self : forall c cs a,
+  l_mdom c = Some cs \/ l_rdom c = Some cs -> In [a; a] cs -> accepts_lattice_constraints c = false.
+Proof. exact reject_lattice_dominance_self. Qed.
+Print Assumptions C16_reject_lattice_dominance_self.
+
+Theorem C16_reject_lattice_dominance_out_of_range : forall c cs a b,
+  l_mdom c = Some cs \/ l_rdom c = Some cs -> In [a; b] cs ->
+  a < 0 \/ zlen (l_sizes c) <= a \/ b < 0 \/ zlen (l_sizes c) <= b ->
+  accepts_lattice_constraints c = false.
+Proof. exact reject_lattice_dominance_out_of_range. Qed.
+Print Assumptions C16_reject_lattice_dominance_out_of_range.
+
+Theorem C16_reject_lattice_dominance_not_a_pair : forall c cs cst,
+  l_mdom c = Some cs \/ l_rdom c = Some cs -> In cst cs -> List.length cst <> 2%nat ->
+  accepts_lattice_constraints c = false.
+Proof. exact reject_lattice_dominance_not_a_pair. Qed.
+Print Assumptions C16_reject_lattice_dominance_not_a_pair.
+
+(* joint monotonicity: not a pair, an index out of range, or a dimension with itself *)
+Theorem C16_reject_lattice_joint_monotonicity_bad : forall c cs cst,
+  l_jmono c = Some cs -> In cst cs ->
+  List.length cst <> 2%nat \/ (exists d, In d cst /\ (d < 0 \/ zlen (l_sizes c) <= d)) \/ (exists a, cst = [a; a]) ->
+  accepts_lattice_constraints c = false.
+Proof. exact reject_lattice_joint_monotonicity_bad. Qed.
+Print Assumptions C16_reject_lattice_joint_monotonicity_bad.
+
+(* joint monotonicity between a dimension and itself (rejected up front since
+   /repo commit ae9551b; the projection used to raise IndexError) *)
+Theorem C16_reject_lattice_joint_monotonicity_self : forall c cs a,
+  l_jmono c = Some cs -> In [a; a] cs -> accepts_lattice_constraints c = false.
+Proof. exact reject_lattice_joint_monotonicity_self. Qed.
+Print Assumptions C16_reject_lattice_joint_monotonicity_self.
+
+(* joint unimodality (dimensions, direction): direction not 'valley'/'peak'
+   (dir_ok = false), repeated dimensions, an index out of range, a dimension of
+   size < 3, or a dimension that is also monotone *)
+Theorem C16_reject_lattice_joint_unimodality_bad : forall c cs dims dir_ok,
+  l_junimod c = Some cs -> In (dims, dir_ok) cs ->
+  dir_ok = false \/ ~ NoDup dims \/
+  (exists d, In d dims /\ (d < 0 \/ zlen (l_sizes c) <= d \/ znth (l_sizes c) d < 3 \/
+                           exists ms, l_monos c = Some ms /\ znth ms d <> 0)) ->
+  accepts_lattice_constraints c = false.
+Proof. exact reject_lattice_joint_unimodality_bad. Qed.
+Print Assumptions C16_reject_lattice_joint_unimodality_bad.
+
+(* whatever LatticeConstraints rejects, verify_hyperparameters and the Lattice
+   layer reject *)
+Theorem C16_reject_lattice_constraints_invalid : forall c,
+  accepts_lattice_constraints c = false -> accepts_lattice c = false /\ accepts_lattice_layer c = false.
+Proof. exact reject_lattice_constraints_invalid. Qed.
+Print Assumptions C16_reject_lattice_constraints_invalid.
+
+(* output_min >= output_max (the Lattice check is strict) *)
+Theorem C16_reject_lattice_output_min_ge_max : forall c lo hi,
+  l_omin c = Some lo -> l_omax c = Some hi -> (hi <= lo)%Q ->
+  accepts_lattice c = false /\ accepts_lattice_layer c = false.
+Proof. exact reject_lattice_output_min_ge_max. Qed.
+Print Assumptions C16_reject_lattice_output_min_ge_max.
+
+Theorem C16_reject_lattice_unknown_interpolation : forall c,
+  l_interp_ok c = false -> accepts_lattice c = false /\ accepts_lattice_layer c = false.
+Proof. exact reject_lattice_unknown_interpolation. Qed.
+Print Assumptions C16_reject_lattice_unknown_interpolation.
+
+(* As is: the Lattice LAYER with its default initialiser verifies the range of
+   lattice_lib.default_init_params, so output_min >= 1 without output_max (range
+   [output_min, max(1, output_min)]) or output_max <= 0 without output_min is
+   rejected, unless one joint unimodality covers all features. *)
+Theorem C16_reject_lattice_layer_empty_init_range : forall c,
+  joint_covers_all (zlen (l_sizes c)) (l_junimod c) = false ->
+  (exists lo, l_omin c = Some lo /\ l_omax c = None /\ (1 <= lo)%Q) \/
+  (exists hi, l_omin c = None /\ l_omax c = Some hi /\ (hi <= 0)%Q) ->
+  accepts_lattice_layer c = false.
+Proof. exact reject_lattice_layer_empty_init_range. Qed.
+Print Assumptions C16_reject_lattice_layer_empty_init_range.
+
+(* the converse reading: EVERYTHING an accepted configuration guarantees
+   (record lattice_constraints_accepted of Proofs/VerifyFacts.v: sizes >= 2,
+   lengths, unimodal sizes >= 3, monotone/unimodal disjoint, trusts in range
+   with monotone main feature, one direction per pair, main/conditional sets
+   disjoint, dominances well-formed pairs of distinct in-range monotone
+   features without (a,b)+(b,a), joint monotonicities pairs of distinct
+   in-range dimensions, joint unimodalities well-formed) *)
+Theorem C16_accepted_lattice_constraints_wellformed : forall c,
+  accepts_lattice_constraints c = true -> lattice_constraints_accepted c.
+Proof. exact accepts_lattice_constraints_sound. Qed.
+Print Assumptions C16_accepted_lattice_constraints_wellformed.
+
+(* ... and nothing else is checked: the classes above are exhaustive, a
+   configuration is rejected by LatticeConstraints iff one of them applies *)
+Theorem C16_lattice_constraints_accepted_iff : forall c,
+  accepts_lattice_constraints c = true <-> lattice_constraints_accepted c.
+Proof. exact accepts_lattice_constraints_iff. Qed.
+Print Assumptions C16_lattice_constraints_accepted_iff.
+
+(* ---- Linear ---------------------------------------------------------------- *)
+Theorem C16_reject_linear_monotonicities_length : forall c m n,
+  n_monos c = Some m -> n_num_input_dims c = Some n -> zlen m <> n -> accepts_linear c = false.
+Proof. exact reject_linear_monotonicities_length. Qed.
+Print Assumptions C16_reject_linear_monotonicities_length.
+
+(* the Linear layer (num_input_dims given): input_min / input_max of another length *)
+Theorem C16_reject_linear_bounds_length : forall c n,
+  n_num_input_dims c = Some n ->
+  (exists ls, n_imin c = Some ls /\ zlen ls <> n) \/ (exists hs, n_imax c = Some hs /\ zlen hs <> n) ->
+  accepts_linear c = false.
+Proof. exact reject_linear_bounds_length. Qed.
+Print Assumptions C16_reject_linear_bounds_length.
+
+Theorem C16_reject_linear_input_min_above_max : forall c ls hs i a b,
+  n_imin c = Some ls -> n_imax c = Some hs -> nth i ls None = Some a -> nth i hs None = Some b ->
+  (b < a)%Q -> accepts_linear c = false.
+Proof. exact reject_linear_input_min_above_max. Qed.
+Print Assumptions C16_reject_linear_input_min_above_max.
+
+(* dominances given (even empty) while monotonicities is None / empty *)
+Theorem C16_reject_linear_dominance_without_monotonicities : forall c,
+  n_monos c = None -> n_mdom c <> None \/ n_rdom c <> None -> accepts_linear c = false.
+Proof. exact reject_linear_dominance_without_monotonicities. Qed.
+Print Assumptions C16_reject_linear_dominance_without_monotonicities.
+
+(* monotonic dominance: not a pair, a feature with itself, out of range, a
+   feature that is not increasing-monotone, or (a,b) together with (b,a) *)
+Theorem C16_reject_linear_monotonic_dominance_bad : forall c m cs cst,
+  n_monos c = Some m -> n_mdom c = Some cs -> In cst cs ->
+  List.length cst <> 2%nat \/
+  (exists a b, cst = [a; b] /\
+     (a = b \/ a < 0 \/ zlen m <= a \/ b < 0 \/ zlen m <= b \/ znth m a <> 1 \/ znth m b <> 1 \/ In [b; a] cs)) ->
+  accepts_linear c = false.
+Proof. exact reject_linear_monotonic_dominance_bad. Qed.
+Print Assumptions C16_reject_linear_monotonic_dominance_bad.
+
+(* range dominance: as above with "same non-zero monotonicity" and
+   range_given lo hi d := input_min[d], input_max[d] both given and different *)
+Theorem C16_reject_linear_range_dominance_bad : forall c m cs cst,
+  n_monos c = Some m -> n_rdom c = Some cs -> In cst cs ->
+  List.length cst <> 2%nat \/
+  (exists a b, cst = [a; b] /\
+     (a = b \/ a < 0 \/ zlen m <= a \/ b < 0 \/ zlen m <= b \/ znth m a <> znth m b \/ znth m a = 0 \/
+      ~ range_given (n_imin c) (n_imax c) a \/ ~ range_given (n_imin c) (n_imax c) b \/ In [b; a] cs)) ->
+  accepts_linear c = false.
+Proof. exact reject_linear_range_dominance_bad. Qed.
+Print Assumptions C16_reject_linear_range_dominance_bad.
+
+Theorem C16_reject_linear_dimension_in_both_dominances : forall c ms rs d,
+  n_mdom c = Some ms -> n_rdom c = Some rs -> In d (List.concat ms) -> In d (List.concat rs) ->
+  accepts_linear c = false.
+Proof. exact reject_linear_dimension_in_both_dominances. Qed.
+Print Assumptions C16_reject_linear_dimension_in_both_dominances.
+
+Theorem C16_accepted_linear_wellformed : forall c, accepts_linear c = true -> linear_accepted c.
+Proof. exact accepts_linear_sound. Qed.
+Print Assumptions C16_accepted_linear_wellformed.
+
+(* ---- PWLCalibration -------------------------------------------------------- *)
+Theorem C16_reject_pwl_too_few_keypoints : forall c ks,
+  p_keypoints c = Some ks -> zlen ks < 2 -> accepts_pwl c = false.
+Proof. exact reject_pwl_too_few_keypoints. Qed.
+Print Assumptions C16_reject_pwl_too_few_keypoints.
+
+(* unsorted or repeated keypoints *)
+Theorem C16_reject_pwl_unsorted_keypoints : forall c ks i,
+  p_keypoints c = Some ks -> (S i < List.length ks)%nat -> (nth (S i) ks 0 <= nth i ks 0)%Q -> accepts_pwl c = false.
+Proof. exact reject_pwl_unsorted_keypoints. Qed.
+Print Assumptions C16_reject_pwl_unsorted_keypoints.
+
+(* output_min > output_max (equality is accepted by this layer) *)
+Theorem C16_reject_pwl_output_min_above_max : forall c lo hi,
+  p_omin c = Some lo -> p_omax c = Some hi -> (hi < lo)%Q -> accepts_pwl c = false.
+Proof. exact reject_pwl_output_min_above_max. Qed.
+Print Assumptions C16_reject_pwl_output_min_above_max.
+
+Theorem C16_reject_pwl_cyclic_with_monotonicity_or_convexity : forall c z,
+  p_cyclic c = true -> z <> 0 -> p_mono c = Some z \/ p_convex c = Some z -> accepts_pwl c = false.
+Proof. exact reject_pwl_cyclic_with_monotonicity_or_convexity. Qed.
+Print Assumptions C16_reject_pwl_cyclic_with_monotonicity_or_convexity.
+
+Theorem C16_reject_pwl_unknown_keypoints_type : forall c, p_kp_type_ok c = false -> accepts_pwl c = false.
+Proof. exact reject_pwl_unknown_keypoints_type. Qed.
+Print Assumptions C16_reject_pwl_unknown_keypoints_type.
+
+(* the layer's own __init__ / build checks: no keypoints; cyclic with fewer than
+   3 keypoints; missing_input_value / missing_output_value without
+   impute_missing; monotonicity None; learned_interior keypoints with a
+   convexity not spelled "none" / 0 *)
+Theorem C16_reject_pwl_layer_bad : forall c, p_layer c = true ->
+  p_keypoints c = None \/
+  (exists ks, p_keypoints c = Some ks /\ p_cyclic c = true /\ zlen ks < 3) \/
+  (p_missing_in c = true /\ p_impute c = false) \/ (p_missing_out c = true /\ p_impute c = false) \/
+  p_mono c = None \/ (p_learned c = true /\ p_convexity_is_none_spelling c = false) ->
+  accepts_pwl c = false.
+Proof. exact reject_pwl_layer_bad. Qed.
+Print Assumptions C16_reject_pwl_layer_bad.
+
+Theorem C16_accepted_pwl_wellformed : forall c, accepts_pwl c = true -> pwl_accepted c.
+Proof. exact accepts_pwl_sound. Qed.
+Print Assumptions C16_accepted_pwl_wellformed.
+
+(* ---- CategoricalCalibration ------------------------------------------------ *)
+Theorem C16_reject_categorical_output_min_above_max : forall c lo hi,
+  c_omin c = Some lo -> c_omax c = Some hi -> (hi < lo)%Q -> accepts_categorical c = false.
+Proof. exact reject_categorical_output_min_above_max. Qed.
+Print Assumptions C16_reject_categorical_output_min_above_max.
+
+Theorem C16_reject_categorical_pairs_not_a_list : forall c ps,
+  c_pairs c = Some ps -> ps <> [] -> c_pairs_is_list c = false -> accepts_categorical c = false.
+Proof. exact reject_categorical_pairs_not_a_list. Qed.
+Print Assumptions C16_reject_categorical_pairs_not_a_list.
+
+(* a monotonicity "pair" that is not a pair, or an index < 0 or >= num_buckets *)
+Theorem C16_reject_categorical_pair_bad : forall c ps p,
+  c_pairs c = Some ps -> In p ps ->
+  List.length p <> 2%nat \/ (exists x, In x p /\ (x < 0 \/ exists n, c_buckets c = Some n /\ n <= x)) ->
+  accepts_categorical c = false.
+Proof. exact reject_categorical_pair_bad. Qed.
+Print Assumptions C16_reject_categorical_pair_bad.
+
+(* the cycles that ARE rejected (at build): every category with an outgoing pair
+   also has an incoming one (e.g. a 2-cycle alone, a self pair alone) *)
+Theorem C16_reject_categorical_no_source : forall c ps n,
+  c_pairs c = Some ps -> ps <> [] -> c_buckets c = Some n ->
+  (forall i j, In [i; j] ps -> exists k, In [k; i] ps) -> accepts_categorical c = false.
+Proof. exact reject_categorical_no_source. Qed.
+Print Assumptions C16_reject_categorical_no_source.
+
+Theorem C16_accepted_categorical_wellformed : forall c, accepts_categorical c = true -> categorical_accepted c.
+Proof. exact accepts_categorical_sound. Qed.
+Print Assumptions C16_accepted_categorical_wellformed.
+
+(* ---- KroneckerFactoredLattice ---------------------------------------------- *)
+Theorem C16_reject_kfl_size : forall c, k_size c <> 0 -> k_size c < 2 -> accepts_kfl c = false.
+Proof. exact reject_kfl_size. Qed.
+Print Assumptions C16_reject_kfl_size.
+Theorem C16_reject_kfl_units : forall c, k_units c < 0 -> accepts_kfl c = false.
+Proof. exact reject_kfl_units. Qed.
+Print Assumptions C16_reject_kfl_units.
+Theorem C16_reject_kfl_terms : forall c, k_terms c < 0 -> accepts_kfl c = false.
+Proof. exact reject_kfl_terms. Qed.
+Print Assumptions C16_reject_kfl_terms.
+Theorem C16_reject_kfl_monotonicities_length : forall c m,
+  k_monos c = Some m -> zlen m <> k_dims c -> accepts_kfl c = false.
+Proof. exact reject_kfl_monotonicities_length. Qed.
+Print Assumptions C16_reject_kfl_monotonicities_length.
+Theorem C16_reject_kfl_output_min_ge_max : forall c lo hi,
+  k_omin c = Some lo -> k_omax c = Some hi -> (hi <= lo)%Q -> accepts_kfl c = false.
+Proof. exact reject_kfl_output_min_ge_max. Qed.
+Print Assumptions C16_reject_kfl_output_min_ge_max.
+
+(* as is (known finding D48): "lattice size < 2 is rejected" fails for 0,
+   because the test is `if lattice_sizes and lattice_sizes < 2` *)
+Theorem C16_reject_kfl_size_zero_refuted : exists c, k_size c = 0 /\ accepts_kfl c = true.
+Proof. exact kfl_zero_size_accepted. Qed.
+Print Assumptions C16_reject_kfl_size_zero_refuted.
+
+(* ---- accepted => valid configuration of the other properties --------------- *)
+(* Lattice -> LatticeSpec.cfg_valid, the premise of the C01 / C08 / C10 / C12
+   theorems.  conv_lattice c units: sizes and trust indices as nat,
+   monotonicities None read as all 0.  Extra hypotheses: units >= 1, and the
+   canonical ranges (monotonicities in {0,1} because the Lattice canonicalises
+   with allow_decreasing=False, trust directions in {-1,1}), which
+   C16_canonical_range_monotonicities / C16_canonical_range_trust give for the
+   canonicalisers' outputs. *)
+Theorem C16_accepted_lattice_is_valid : forall c units,
+  accepts_lattice c = true -> (1 <= units)%nat ->
+  (forall ms m, l_monos c = Some ms -> In m ms -> m = 0 \/ m = 1) ->
+  (forall a b d, In (a, b, d) (l_edge c ++ l_trap c) -> d = 1 \/ d = -1) ->
+  LatticeSpec.cfg_valid (conv_lattice c units).
+Proof. exact accepted_lattice_cfg_valid. Qed.
+Print Assumptions C16_accepted_lattice_is_valid.
+Example C16_accepted_lattice_example :
+  let c := mkL [3; 2; 2] (Some [1; 0; 1]) (Some [0; 0; 0]) [(0, 1, 1)] [(2, 1, -1)]
+               (Some [[0; 2]]) None (Some [[0; 1]]) None (Some (0#1)) (Some (1#1))%Q true in
+  accepts_lattice c = true /\ accepts_lattice_layer c = true /\
+  (forall ms m, l_monos c = Some ms -> In m ms -> m = 0 \/ m = 1) /\
+  (forall a b d, In (a, b, d) (l_edge c ++ l_trap c) -> d = 1 \/ d = -1).
+Proof. exact accepted_lattice_example. Qed.
+
+(* KroneckerFactoredLattice -> KFL.cfg_ok, the premise of the C07 / C14
+   theorems.  Extra hypotheses: lattice_sizes <> 0 (D48) and >= 1 input. *)
+Theorem C16_accepted_kfl_is_valid : forall c clip,
+  accepts_kfl c = true -> k_size c <> 0 -> 1 <= k_dims c ->
+  Proofs.KFL.cfg_ok (conv_kfl c clip) (Z.to_nat (k_dims c)).
+Proof. exact accepted_kfl_cfg_ok. Qed.
+Print Assumptions C16_accepted_kfl_is_valid.
+Example C16_accepted_kfl_example :
+  let c := mkK 3 2 2 (Some [1; 0]) 2 (Some (0#1)) (Some (1#1))%Q in
+  accepts_kfl c = true /\ k_size c <> 0 /\ 1 <= k_dims c.
+Proof. exact accepted_kfl_example. Qed.
+
+(* PWLCalibration -> pwl_valid, the premise of the C04 theorems, with
+   n = number of keypoints - 1 heights and lengths = keypoint differences
+   (non-cyclic reading; a cyclic layer has one weight less and, being neither
+   monotone nor convex, no use for the lengths).  oz None = 0.  Extra
+   hypotheses: canonical monotonicity / convexity, and a clamp only together
+   with a monotonicity - the library does NOT check the latter up front (known
+   finding D43: ValueError from the first projection). *)
+Theorem C16_accepted_pwl_is_valid : forall c ks clamp_min clamp_max iters,
+  accepts_pwl c = true -> p_keypoints c = Some ks ->
+  (oz (p_mono c) = -1 \/ oz (p_mono c) = 0 \/ oz (p_mono c) = 1) ->
+  (oz (p_convex c) = -1 \/ oz (p_convex c) = 0 \/ oz (p_convex c) = 1) ->
+  ((p_omin c <> None /\ clamp_min = true) \/ (p_omax c <> None /\ clamp_max = true) -> oz (p_mono c) <> 0) ->
+  Proofs.PWLProject.pwl_valid (conv_pwl c ks clamp_min clamp_max iters) (List.length ks - 1).
+Proof. exact accepted_pwl_valid. Qed.
+Print Assumptions C16_accepted_pwl_is_valid.
+Example C16_accepted_pwl_example :
+  let c := mkP (Some [0#1; 1#2; 2#1]%Q) (Some (0#1)%Q) (Some (1#1)%Q) (Some 1) (Some (-1)) false true false true
+               false false false true in
+  accepts_pwl c = true /\ oz (p_mono c) = 1 /\ oz (p_convex c) = -1.
+Proof. exact accepted_pwl_example. Qed.
+
+(* Linear -> lin_valid, the premise of the C06 linear theorems.  Extra
+   hypotheses: canonical monotonicities; input_min / input_max as long as the
+   monotonicities when range dominances are used (checked by the library only
+   against the weights' shape at call time; shorter lists: known finding D45);
+   and ACYCLIC dominance graphs, which verify_hyperparameters does not check
+   beyond self pairs and 2-cycles (see the _refuted theorem below). *)
+Theorem C16_accepted_linear_is_valid : forall c m norm,
+  accepts_linear c = true -> n_monos c = Some m ->
+  (forall x, In x m -> x = 0 \/ x = 1 \/ x = -1) ->
+  (olist (n_rdom c) <> [] -> List.length (olist (n_imin c)) = List.length m /\ List.length (olist (n_imax c)) = List.length m) ->
+  TopoSort.acyclic (Model.LinearProject.swap_pairs (zpairs (olist (n_mdom c)))) ->
+  TopoSort.acyclic (Model.LinearProject.swap_pairs (zpairs (olist (n_rdom c)))) ->
+  Proofs.LinearProject.lin_valid (conv_linear c norm) (List.length m).
+Proof. exact accepted_linear_lin_valid. Qed.
+Print Assumptions C16_accepted_linear_is_valid.
+Example C16_accepted_linear_example :
+  let c := mkLin (Some [1; 1; -1; -1; 0]) (Some 5) (Some [[0; 1]]) (Some [[2; 3]])
+                 (Some [None; None; Some (0#1); Some (-1#1); None]%Q)
+                 (Some [None; None; Some (2#1); Some (1#2); None]%Q) in
+  accepts_linear c = true /\
+  (forall x, In x [1; 1; -1; -1; 0] -> x = 0 \/ x = 1 \/ x = -1) /\
+  (List.length (olist (n_imin c)) = 5%nat /\ List.length (olist (n_imax c)) = 5%nat) /\
+  TopoSort.acyclic (Model.LinearProject.swap_pairs (zpairs (olist (n_mdom c)))) /\
+  TopoSort.acyclic (Model.LinearProject.swap_pairs (zpairs (olist (n_rdom c)))).
+Proof. exact accepted_linear_example. Qed.
+
+(* a dominance cycle of List.length 3 is ACCEPTED by LinearConstraints; the first
+   projection then raises ValueError 'Circular monotonicity constraints' *)
+Theorem C16_linear_rejects_dominance_cycles_refuted : exists c cs,
+  accepts_linear c = true /\ n_mdom c = Some cs /\
+  ~ TopoSort.acyclic (Model.LinearProject.swap_pairs (zpairs cs)).
+Proof. exact linear_accepts_dominance_cycle. Qed.
+Print Assumptions C16_linear_rejects_dominance_cycles_refuted.
+
+(* CategoricalCalibration -> pairs_in_range, one premise of the C06 categorical
+   theorems ... *)
+Theorem C16_accepted_categorical_pairs_in_range : forall c ps n (w : list Q),
+  accepts_categorical c = true -> c_pairs c = Some ps -> c_buckets c = Some n -> List.length w = Z.to_nat n ->
+  PartialOrder.pairs_in_range (zpairs ps) w.
+Proof. exact accepted_categorical_pairs_in_range. Qed.
+Print Assumptions C16_accepted_categorical_pairs_in_range.
+Example C16_accepted_categorical_example :
+  let c := mkC (Some 4) (Some (0#1)%Q) (Some (1#1)%Q) true (Some [[0; 1]; [1; 3]; [2; 3]]) in
+  accepts_categorical c = true /\ TopoSort.acyclic (zpairs [[0; 1]; [1; 3]; [2; 3]]).
+Proof. exact accepted_categorical_example. Qed.
+
+(* ... but NOT the other one, acyclicity: the only cycle test is "some category
+   has no incoming pair", so [(0,3),(1,2),(3,0)] is accepted (and the pairs on
+   the cycle are then silently not enforced) *)
+Theorem C16_categorical_rejects_cycles_refuted : exists c ps,
+  accepts_categorical c = true /\ c_pairs c = Some ps /\ ~ TopoSort.acyclic (zpairs ps).
+Proof. exact categorical_accepts_cycle. Qed.
+Print Assumptions C16_categorical_rejects_cycles_refuted.
+
+(* ---- the canonical-range hypotheses of the bridges, discharged -------------- *)
+(* The typed hyperparameters of Model/Verify.v are obtained from canonicaliser
+   outputs by the glue of Harness/H_C16.v: conv_zs / conv_trusts / conv_scalar
+   read a canonical value as option (list Z) / list of triples / option Z
+   (CVal), via num_z (an int, or a bool as 0/1).  For every argument of the
+   universe, what the glue produces from the GENERATED canonicalisers lies in
+   the canonical ranges the bridges above assume. *)
+From TFL Require Import Harness.H_C16 Proofs.VerifyLink.
+Open Scope Z_scope.
+
+Theorem C16_canonical_monotonicities_typed : forall v ad ms,
+  conv_zs (canonicalize_monotonicities v ad) = CVal (Some ms) ->
+  (forall m, In m ms -> m = 0 \/ m = 1 \/ m = -1) /\
+  (py_truthy ad = false -> forall m, In m ms -> m = 0 \/ m = 1).
+Proof. exact link_monotonicities. Qed.
+Print Assumptions C16_canonical_monotonicities_typed.
+
+Theorem C16_canonical_trust_directions_typed : forall v ts,
+  conv_trusts (canonicalize_trust v) = CVal ts -> forall a b d, In (a, b, d) ts -> d = 1 \/ d = -1.
+Proof. exact link_trusts. Qed.
+Print Assumptions C16_canonical_trust_directions_typed.
+
+Theorem C16_canonical_monotonicity_typed : forall v ad o,
+  conv_scalar (canonicalize_monotonicity v ad) = CVal o -> oz o = -1 \/ oz o = 0 \/ oz o = 1.
+Proof. exact link_monotonicity. Qed.
+Print Assumptions C16_canonical_monotonicity_typed.
+
+Theorem C16_canonical_convexity_typed : forall v o,
+  conv_scalar (canonicalize_convexity v) = CVal o -> oz o = -1 \/ oz o = 0 \/ oz o = 1.
+Proof. exact link_convexity. Qed.
+Print Assumptions C16_canonical_convexity_typed.
+
+(* Lattice, end to end: monotonicities / Edgeworth / trapezoid trusts spelled in
+   ANY way the canonicalisers accept (vm, ve, vt arbitrary values), configuration
+   accepted by verify_hyperparameters  =>  valid configuration of the C01 / C08 /
+   C10 / C12 theorems.  No canonical-range hypothesis left. *)
+Theorem C16_canonical_accepted_lattice_is_valid : forall vm ve vt c units,
+  conv_zs (canonicalize_monotonicities vm (VBool false)) = CVal (l_monos c) ->
+  conv_trusts (canonicalize_trust ve) = CVal (l_edge c) ->
+  conv_trusts (canonicalize_trust vt) = CVal (l_trap c) ->
+  accepts_lattice c = true -> (1 <= units)%nat ->
+  LatticeSpec.cfg_valid (conv_lattice c units).
+Proof. exact canonical_accepted_lattice_cfg_valid. Qed.
+Print Assumptions C16_canonical_accepted_lattice_is_valid.
+Example C16_canonical_accepted_lattice_example :
+  let c := mkL [3; 2; 2] (Some [1; 0; 1]) None [(0, 1, 1)] [(2, 1, -1)] None None None None
+               (Some (0#1)) (Some (1#1))%Q true in
+  conv_zs (canonicalize_monotonicities (VList [VStr "Increasing"; VStr "none"; VInt 1]) (VBool false)) = CVal (l_monos c) /\
+  conv_trusts (canonicalize_trust (VList [VTuple [VInt 0; VInt 1; VStr "positive"]])) = CVal (l_edge c) /\
+  conv_trusts (canonicalize_trust (VTuple [VList [VInt 2; VInt 1; VStr "Negative"]])) = CVal (l_trap c) /\
+  accepts_lattice c = true.
+Proof. cbv zeta. repeat split; vm_compute; reflexivity. Qed.
